@@ -220,4 +220,136 @@ theorem ext_addAllEdges {eqs : List Eqn} : ∀ (es : List Eqn) (g g' : Graph), (
       exact e1.trans (ext_addAllEdges es g1 g' (fun x hx => hsub x (List.mem_cons_of_mem _ hx))
         (fun e' he' n hn => e1.has (hlhs e' he' n hn)) h)
 
+-- ------------------------------------------------------------------------------------------------ buildGraph
+/-- the nodes the builder starts the edge loop with: the left-hand sides, in equation order, with their roles -/
+def lhsGNodes (tm : List (Nat × VType)) (eqs : List Eqn) : List GNode :=
+  eqs.filterMap (fun e => (lhsNode e.lhs).map fun n => ⟨n, some e, nodeType tm n⟩)
+
+theorem lhsNodes_spec (tm : List (Nat × VType)) : ∀ (eqs : List Eqn) (ns : List GNode), lhsNodes eqs = some ns →
+    ns.map (fun n => { n with vtype := nodeType tm n.node }) = lhsGNodes tm eqs
+  | [], ns, h => by simp only [lhsNodes, Option.some.injEq] at h; subst h; rfl
+  | e :: es, ns, h => by
+    simp only [lhsNodes] at h
+    rcases hl : lhsNode e.lhs with _ | n
+    · rw [hl] at h; simp at h
+    · rcases hr : lhsNodes es with _ | ns'
+      · rw [hl, hr] at h; simp at h
+      · rw [hl, hr] at h
+        simp only [Option.some.injEq] at h
+        subst h
+        have ih := lhsNodes_spec tm es ns' hr
+        simp only [List.map_cons, lhsGNodes, List.filterMap_cons, hl, Option.map_some]
+        rw [ih]; rfl
+
+theorem hasNode_lhsGNodes (tm : List (Nat × VType)) (eqs : List Eqn) (es : List (Node × Node)) {e : Eqn}
+    (he : e ∈ eqs) {n : Node} (hn : lhsNode e.lhs = some n) : hasNode ⟨lhsGNodes tm eqs, es⟩ n = true := by
+  unfold hasNode
+  rw [List.any_eq_true]
+  exact ⟨⟨n, some e, nodeType tm n⟩, List.mem_filterMap.mpr ⟨e, he, by simp [hn]⟩, by simp⟩
+
+/-- **the nodes of `Model.graph`**: the left-hand sides, then bare STATE/FREE variable nodes -/
+theorem buildGraph_nodes {names : List String} {eqs : List Eqn} {g : Graph} (h : buildGraph names eqs = .ok g) :
+    ∃ extra, g.nodes = lhsGNodes (typeMap eqs) eqs ++ extra ∧ ∀ x ∈ extra, BareOK (typeMap eqs) x := by
+  unfold buildGraph at h
+  dsimp only at h
+  rcases hl : lhsNodes eqs with _ | ns
+  · rw [hl] at h; cases h
+  · rw [hl] at h
+    dsimp only at h
+    split at h
+    · cases h
+    · split at h
+      · cases h
+      · rw [lhsNodes_spec (typeMap eqs) eqs ns hl] at h
+        exact ext_addAllEdges eqs _ g (fun _ he => he)
+          (fun e' he' n hn => hasNode_lhsGNodes _ _ _ he' hn) h
+
+/-- the derivatives that are left-hand sides, in equation order -/
+def derivLhs (eqs : List Eqn) : List (Nat × Nat) :=
+  eqs.filterMap (fun e => match e.lhs with | .deriv s t _ => some (s, t) | _ => none)
+
+/-- the assigned variables whose role is none of FREE, STATE, PARAMETER, in equation order -/
+def computedLhs (tm : List (Nat × VType)) (eqs : List Eqn) : List Nat :=
+  eqs.filterMap (fun e => match e.lhs with
+    | .var v => if tyOf tm v = some .free ∨ tyOf tm v = some .state ∨ tyOf tm v = some .parameter then none else some v
+    | _ => none)
+
+theorem lhsGNodes_cons_some (tm : List (Nat × VType)) (e : Eqn) (es : List Eqn) {n : Node} (h : lhsNode e.lhs = some n) :
+    lhsGNodes tm (e :: es) = ⟨n, some e, nodeType tm n⟩ :: lhsGNodes tm es := by
+  unfold lhsGNodes; rw [List.filterMap_cons]; simp only [h, Option.map_some]
+
+theorem lhsGNodes_cons_none (tm : List (Nat × VType)) (e : Eqn) (es : List Eqn) (h : lhsNode e.lhs = none) :
+    lhsGNodes tm (e :: es) = lhsGNodes tm es := by
+  unfold lhsGNodes; rw [List.filterMap_cons]; simp only [h, Option.map_none]
+
+theorem derivNodesL_lhsGNodes (tm : List (Nat × VType)) : ∀ eqs : List Eqn, derivNodesL (lhsGNodes tm eqs) = derivLhs eqs
+  | [] => rfl
+  | e :: es => by
+    have ih := derivNodesL_lhsGNodes tm es
+    cases hl : e.lhs with
+    | var v =>
+      rw [lhsGNodes_cons_some tm e es (n := .var v) (by rw [hl]; rfl)]
+      simp only [derivNodesL, derivLhs, List.filterMap_cons, hl] at ih ⊢; exact ih
+    | deriv s t o =>
+      rw [lhsGNodes_cons_some tm e es (n := .deriv s t) (by rw [hl]; rfl)]
+      simp only [derivNodesL, derivLhs, List.filterMap_cons, hl] at ih ⊢; rw [ih]
+    | other =>
+      rw [lhsGNodes_cons_none tm e es (by rw [hl]; rfl)]
+      simp only [derivNodesL, derivLhs, List.filterMap_cons, hl] at ih ⊢; exact ih
+
+theorem derivedNodesL_lhsGNodes (tm : List (Nat × VType)) : ∀ eqs : List Eqn,
+    derivedNodesL (lhsGNodes tm eqs) = computedLhs tm eqs
+  | [] => rfl
+  | e :: es => by
+    have ih := derivedNodesL_lhsGNodes tm es
+    cases hl : e.lhs with
+    | var v =>
+      rw [lhsGNodes_cons_some tm e es (n := .var v) (by rw [hl]; rfl)]
+      simp only [derivedNodesL, computedLhs, List.filterMap_cons, hl, nodeType] at ih ⊢
+      rw [ih]
+    | deriv s t o =>
+      rw [lhsGNodes_cons_some tm e es (n := .deriv s t) (by rw [hl]; rfl)]
+      simp only [derivedNodesL, computedLhs, List.filterMap_cons, hl] at ih ⊢; exact ih
+    | other =>
+      rw [lhsGNodes_cons_none tm e es (by rw [hl]; rfl)]
+      simp only [derivedNodesL, computedLhs, List.filterMap_cons, hl] at ih ⊢; exact ih
+
+theorem bare_no_deriv {tm : List (Nat × VType)} {extra : List GNode} (h : ∀ x ∈ extra, BareOK tm x) :
+    derivNodesL extra = [] ∧ derivedNodesL extra = [] := by
+  constructor
+  · unfold derivNodesL
+    rw [List.filterMap_eq_nil_iff]
+    intro x hx
+    obtain ⟨v, rfl, _⟩ := h x hx
+    rfl
+  · unfold derivedNodesL
+    rw [List.filterMap_eq_nil_iff]
+    intro x hx
+    obtain ⟨v, rfl, hv⟩ := h x hx
+    rcases hv with hv | hv <;> simp [hv]
+
+theorem derivNodes_of_build {names : List String} {eqs : List Eqn} {g : Graph} (h : buildGraph names eqs = .ok g) :
+    derivNodes g = derivLhs eqs := by
+  obtain ⟨extra, hn, hb⟩ := buildGraph_nodes h
+  unfold derivNodes
+  rw [hn]
+  unfold derivNodesL
+  rw [List.filterMap_append]
+  have := (bare_no_deriv hb).1
+  unfold derivNodesL at this
+  rw [this, List.append_nil]
+  exact derivNodesL_lhsGNodes _ eqs
+
+theorem derivedNodes_of_build {names : List String} {eqs : List Eqn} {g : Graph} (h : buildGraph names eqs = .ok g) :
+    derivedNodes g = computedLhs (typeMap eqs) eqs := by
+  obtain ⟨extra, hn, hb⟩ := buildGraph_nodes h
+  unfold derivedNodes
+  rw [hn]
+  unfold derivedNodesL
+  rw [List.filterMap_append]
+  have := (bare_no_deriv hb).2
+  unfold derivedNodesL at this
+  rw [this, List.append_nil]
+  exact derivedNodesL_lhsGNodes _ eqs
+
 end Model
